@@ -109,6 +109,32 @@ def generate():
         return True
     fl, why = astlib.try_flag(clones)
     out.append("Definition amend_clones_first : bool := %s.%s" % (astlib.coq_bool(bool(fl)), "" if why is None else "  (* %s *)" % why))
+    def parse_key():
+        m = astlib.module("klongpy/interpreter.py")
+        cls = astlib.find_class(m, "KlongInterpreter")
+        fn = astlib.find_func(cls, "__call__")
+        body = astlib.body_no_doc(fn)
+        key_at = get_at = None
+        for i, st in enumerate(body):
+            if isinstance(st, ast.Assign) and ast.unparse(st.targets[0]) == "cache_key" and key_at is None:
+                if ast.unparse(st.value) != "(x, self._module)":
+                    return False
+                key_at = i
+            if isinstance(st, ast.Assign) and "self._parse_cache.get(" in ast.unparse(st.value) and get_at is None:
+                if ast.unparse(st.value) != "self._parse_cache.get(cache_key)":
+                    return False
+                get_at = i
+        if key_at is None or get_at is None or key_at > get_at:
+            return False
+        # every store into / read of the parse cache uses that key
+        for n in ast.walk(fn):
+            if isinstance(n, ast.Subscript) and ast.unparse(n.value) == "self._parse_cache" and ast.unparse(n.slice) != "cache_key":
+                return False
+            if isinstance(n, ast.Call) and ast.unparse(n.func) == "self._parse_cache.get" and ast.unparse(n.args[0]) != "cache_key":
+                return False
+        return True
+    fl, why = astlib.try_flag(parse_key)
+    out.append("Definition parse_cache_key_has_module : bool := %s.%s" % (astlib.coq_bool(bool(fl)), "" if why is None else "  (* %s *)" % why))
     return "\n".join(out) + "\n"
 
 
@@ -171,24 +197,65 @@ def val_sx(v):
 
 # ---------------------------------------------------------------- child: the property's own experiment
 CHILD = r'''
-import sys, json, copy
+import sys, json, copy, re
+from collections import deque
 sys.path.insert(0, %(verif)r)
 sys.setrecursionlimit(3000)
 import numpy as np
 from klongpy import KlongInterpreter
-from klongpy.core import KGSym, KGFn, KGLambda
+from klongpy.interpreter import KGModule
+from klongpy.core import KGSym, KGFn, KGLambda, KGAdverb
 from harness.canon import canon
 from harness.common import sx
 from harness.c04 import to_expr, val_sx, Unsupported, NAMES
 
-def user_vars(k):
-    return k._context._context[0]
+def user_frames(k):
+    return list(k._context._context)[:-2]
+
+def strip_memo(node, seen):
+    # a copied syntax tree must not carry the compilations its original collected
+    if id(node) in seen:
+        return
+    seen.add(id(node))
+    if isinstance(node, KGFn):
+        node.__dict__.pop('_compiled', None)
+        strip_memo(node.a, seen)
+        strip_memo(node.args, seen)
+    elif isinstance(node, KGAdverb):
+        strip_memo(node.a, seen)
+    elif isinstance(node, (list, tuple)):
+        for a in node:
+            strip_memo(a, seen)
+    elif isinstance(node, dict):
+        for a in node.values():
+            strip_memo(a, seen)
+    elif isinstance(node, np.ndarray) and node.dtype == object:
+        for a in node.flat:
+            strip_memo(a, seen)
+
+def load_copy(A):
+    # a fresh interpreter loaded with a deep copy of A's state: every user scope (module scopes included),
+    # the active module; no parse cache, no compiled cache, no compilations on copied function bodies
+    B = KlongInterpreter()
+    frames = []
+    for d in user_frames(A):
+        nd = KGModule(d.name) if isinstance(d, KGModule) else {}
+        for key, val in d.items():
+            v2 = copy.deepcopy(val)
+            strip_memo(v2, set())
+            nd[key] = v2
+        frames.append(nd)
+    sysf = list(B._context._context)[-2:]
+    B._context._context = deque(frames + sysf)
+    B._context._min_ctx_count = A._context._min_ctx_count
+    B._module = A._module
+    return B
 
 def csnap(k):
-    out = {}
-    for key, val in user_vars(k).items():
-        out[str(key)] = sx(canon(val))
-    return out
+    out = []
+    for d in user_frames(k):
+        out.append([type(d).__name__ + ":" + str(getattr(d, 'name', ''))] + sorted([str(key), sx(canon(val))] for key, val in d.items()))
+    return {"frames": out, "module": str(k._module)}
 
 def run_stmt(k, text):
     try:
@@ -201,73 +268,52 @@ def run_stmt(k, text):
 def experiment(stmts):
     A = KlongInterpreter()
     kp = KlongInterpreter()
-    defs = {}          # function variable -> defining text
     recs = []
     for text in stmts:
         rec = {"text": text}
         pre = csnap(A)
-        # ---- B: fresh interpreter loaded with a deep copy of A's pre-state
-        B = KlongInterpreter()
-        for key, val in list(user_vars(A).items()):
-            name = str(key)
-            if isinstance(val, (KGFn, KGLambda)):
-                if name in defs:
-                    try:
-                        B(defs[name])
-                    except Exception:
-                        pass
-                else:
-                    B[name] = val
-            else:
-                B[name] = copy.deepcopy(val)
+        B = load_copy(A)
         rec["preB"] = csnap(B)
         rec["pre"] = pre
         rec["rA"] = run_stmt(A, text)
         rec["rB"] = run_stmt(B, text)
         rec["postA"] = csnap(A)
         rec["postB"] = csnap(B)
-        rec["depth"] = len(A._context._context)
-        # model-side data
         try:
             i, prog = kp.prog(text)
             tree = prog[0] if len(prog) == 1 else prog
             rec["expr"] = sx(to_expr(tree))
-        except Unsupported:
-            rec["expr"] = None
         except Exception:
             rec["expr"] = None
-        rec["valA"] = None
-        if not rec["rA"] in ("EXC", "RECURSION"):
-            pass
         vals = {}
-        for key, val in user_vars(A).items():
-            if str(key) in NAMES:
-                vals[str(key)] = val_sx(val)
+        for d in reversed(user_frames(A)):
+            for key, val in d.items():
+                if str(key) in NAMES:
+                    vals[str(key)] = val_sx(val)
         rec["vals"] = vals
-        # which variable does the statement assign (top-level  name::expr)
         tgt = None
-        if "::" in text:
-            head = text.split("::", 1)[0]
-            if head.isalpha():
-                tgt = head
-                # remember how function variables were made
-                after = user_vars(A).get(KGSym(head))
-                if isinstance(after, (KGFn, KGLambda)):
-                    defs[head] = text
-                else:
-                    defs.pop(head, None)
+        m = re.match(r"^([a-z][a-z0-9]*)::", text)
+        if m:
+            tgt = m.group(1)
         rec["target"] = tgt
         recs.append(rec)
     return recs
 
+def final_state(stmts):
+    k = KlongInterpreter()
+    out = []
+    for t in stmts:
+        out.append(run_stmt(k, t))
+    return {"results": out, "state": csnap(k)}
+
 req = json.load(sys.stdin)
-json.dump([experiment(s) for s in req], sys.stdout)
+json.dump({"exp": [experiment(s) for s in req.get("exp", [])], "final": [final_state(s) for s in req.get("final", [])]}, sys.stdout)
 '''
 
 
-def run_child(seqs):
+def run_child(seqs, final=()):
     env = dict(os.environ, PYTHONPATH=REPO + ":" + VERIF, PYTHONHASHSEED="0")
-    p = subprocess.run([PY, "-W", "ignore", "-c", CHILD % {"verif": VERIF}], input=json.dumps(seqs).encode(),
+    p = subprocess.run([PY, "-W", "ignore", "-c", CHILD % {"verif": VERIF}], input=json.dumps({"exp": seqs, "final": list(final)}).encode(),
                        stdout=subprocess.PIPE, stderr=subprocess.PIPE, env=env, timeout=3000)
     if p.returncode != 0:
         raise RuntimeError("C04 child failed: " + p.stderr.decode()[-2000:])
@@ -276,12 +322,12 @@ def run_child(seqs):
 
 def run_child_sharded(seqs, shards=4):
     if len(seqs) < 200:
-        return run_child(seqs)
+        return run_child(seqs)["exp"]
     import concurrent.futures
     n = (len(seqs) + shards - 1) // shards
     parts = [seqs[i:i + n] for i in range(0, len(seqs), n)]
     with concurrent.futures.ThreadPoolExecutor(max_workers=shards) as ex:
-        outs = list(ex.map(run_child, parts))
+        outs = list(ex.map(lambda part: run_child(part)["exp"], parts))
     return [c for o in outs for c in o]
 
 
